@@ -81,8 +81,13 @@ type rateEvent struct {
 
 // checkEnvelope verifies bytes(t1,t2] <= rate*(t2-t1)*1.01 + burst for every pair of events.
 func checkEnvelope(ev []rateEvent, rate int64) (bool, string) {
+	return checkEnvelopeN(ev, rate, 1)
+}
+
+// checkEnvelopeN allows that many bursts (one per incarnation of the limiter).
+func checkEnvelopeN(ev []rateEvent, rate int64, bursts int) (bool, string) {
 	sort.SliceStable(ev, func(i, j int) bool { return ev[i].at < ev[j].at })
-	burst := float64(rate) // one second's worth
+	burst := float64(rate) * float64(bursts) // one second's worth each
 	for i := range ev {
 		var sum int64
 		for j := i; j < len(ev); j++ {
@@ -90,7 +95,7 @@ func checkEnvelope(ev []rateEvent, rate int64) (bool, string) {
 			dt := (ev[j].at - ev[i].at).Seconds()
 			allowed := float64(rate)*dt*1.01 + burst
 			if float64(sum) > allowed+1 {
-				return false, fmt.Sprintf("%d bytes between t=%v and t=%v (%.6fs): allowed %.0f at %d B/s plus one second of burst", sum, ev[i].at, ev[j].at, dt, allowed, rate)
+				return false, fmt.Sprintf("%d bytes between t=%v and t=%v (%.6fs): allowed %.0f at %d B/s plus %d second(s) of burst", sum, ev[i].at, ev[j].at, dt, allowed, rate, bursts)
 			}
 		}
 	}
